@@ -506,6 +506,10 @@ def obligations(tier: str):
         obs += [
             Chx("ranking_n3", h_ranking, timeout=T, fix={"n": 3, "vmax": 1}, split={"pop": [1, 2, 3, 4]}),
             Chx("ranking_dups_n3", h_ranking_dups, timeout=T, fix={"n": 3, "vmax": 1}, split={"pop": [1, 2, 3, 4]}),
+            # four individuals, one goal: the smallest population in which a later front has to drop two members
+            # for one newcomer (three individuals left after the first front)
+            Chx("ranking_n4_m1", h_ranking, timeout=T, fix={"n": 4, "vmax": 2, "m": 1, "la": 1, "lb": 1, "lc": 1, "ld": 1},
+                split={"pop": [2, 3, 4]}),
             Chx("crowding", h_crowding, timeout=T, split={"n": [0, 1, 2, 3]}),
             Chx("tournament", h_tournament, timeout=T, fix={"maximize": False}, split={"n": [1, 2, 3]}),
         ]
